@@ -7,7 +7,7 @@ use serde_json::json;
 use tfref::alpha::{dd_alpha, gen_fracs, run_bounded, run_bounded_at, weyl_fracs, DdSpec};
 use tfref::big::Dy;
 
-pub const CALLS: [&str; 12] = ["add", "sub", "add_assign", "sub_assign", "add_f", "sub_f", "add_assign_f", "sub_assign_f", "f_add", "f_sub", "sum_tf", "sum_f64"];
+pub const CALLS: [&str; 14] = ["add", "sub", "add_assign", "sub_assign", "add_f", "sub_f", "add_assign_f", "sub_assign_f", "f_add", "f_sub", "sum_tf", "sum_f64", "add_self", "sub_self"];
 
 fn in_range(hi: f64) -> bool {
     hi == 0.0 || (hi.is_finite() && hi.abs() >= 2f64.powi(-1000) && hi.abs() <= 2f64.powi(1000))
@@ -35,6 +35,11 @@ fn bound(name: &'static str, clause: &'static str, args: &[u64], r: [f64; 2], s:
 /// One transition. call index into CALLS (0..10). `b` is a TwoFloat for 0..4, an f64 (b[0]) otherwise.
 pub fn judge(call: usize, a: [f64; 2], b: [f64; 2], mut l: Option<&mut Local>) -> Verdict {
     let name = CALLS[call];
+    // 12, 13: `&x + &x`, `&x - &x` with BOTH operands the same object (aliased references); judged as add / sub of (a, a)
+    let alias = call >= 12;
+    if alias && (a[0].to_bits() != b[0].to_bits() || a[1].to_bits() != b[1].to_bits()) {
+        return Verdict::Skip;
+    }
     let x = st::mk(a);
     let f = b[0];
     let args4 = [a[0].to_bits(), a[1].to_bits(), b[0].to_bits(), b[1].to_bits()];
@@ -42,6 +47,8 @@ pub fn judge(call: usize, a: [f64; 2], b: [f64; 2], mut l: Option<&mut Local>) -
         return Verdict::Skip;
     }
     let res = api(|| match call {
+        12 => &x + &x,
+        13 => &x - &x,
         0 => x + st::mk(b),
         1 => x - st::mk(b),
         2 => {
@@ -75,8 +82,8 @@ pub fn judge(call: usize, a: [f64; 2], b: [f64; 2], mut l: Option<&mut Local>) -
     };
     let da = Dy::from_dd(a[0], a[1]);
     match call {
-        0 | 2 => bound(name, "tf+tf: 3u^2+13u^3", &args4, r, &da.add(&Dy::from_dd(b[0], b[1])), 3, 13, l.as_deref_mut()),
-        1 | 3 => bound(name, "tf-tf: 3u^2+13u^3", &args4, r, &da.sub(&Dy::from_dd(b[0], b[1])), 3, 13, l.as_deref_mut()),
+        0 | 2 | 12 => bound(name, "tf+tf: 3u^2+13u^3", &args4, r, &da.add(&Dy::from_dd(b[0], b[1])), 3, 13, l.as_deref_mut()),
+        1 | 3 | 13 => bound(name, "tf-tf: 3u^2+13u^3", &args4, r, &da.sub(&Dy::from_dd(b[0], b[1])), 3, 13, l.as_deref_mut()),
         4 | 6 | 8 => bound(name, "tf+f64: 2u^2", &args4, r, &da.add_f64(f), 2, 0, l.as_deref_mut()),
         5 | 7 => bound(name, "tf-f64: 2u^2", &args4, r, &da.sub_f64(f), 2, 0, l.as_deref_mut()),
         _ => bound(name, "f64-tf: 2u^2", &args4, r, &Dy::from_f64(f).sub(&da), 2, 0, l.as_deref_mut()),
@@ -126,7 +133,7 @@ pub fn judge_sum(kind: usize, seq: &[[f64; 2]]) -> Verdict {
 
 pub fn replay(call: &str, _clause: &str, args: &[u64]) -> Verdict {
     let ci = CALLS.iter().position(|c| *c == call).expect("unknown call");
-    if ci >= 10 {
+    if ci == 10 || ci == 11 {
         let seq: Vec<[f64; 2]> = args.chunks(2).map(|c| [f64::from_bits(c[0]), f64::from_bits(c[1])]).collect();
         return judge_sum(ci - 10, &seq);
     }
@@ -352,6 +359,21 @@ pub fn run(r: &mut Runner) {
                 for call in 0..4usize {
                     let v = judge(call, a, b, Some(l));
                     rec.record(l, (1u64 << 62) + i * 8 + call as u64, v);
+                }
+            }
+        });
+    }
+    {
+        // the same object on both sides: `&x +/- &x` (aliased references), which a squaring / self-cancellation shortcut keyed on
+        // pointer identity would treat differently from two equal values; judged with the oracle of (x, x)
+        let xs = crate::fx::self_alphabet(quick, -1000, 999, 301);
+        let nx = xs.len();
+        r.notes.push(format!("aliased operands (&x +/- &x, one object): {} operands (grid over exponents -1000..999, one-call chain states, generic stream)", nx));
+        r.par("aliased operands: &x +/- &x", nx.div_ceil(4096), nx as u64, |c, l| {
+            for i in (c * 4096)..((c + 1) * 4096).min(nx) {
+                for call in [12usize, 13] {
+                    let v = judge(call, xs[i], xs[i], Some(l));
+                    rec.record(l, (5u64 << 59) + (i * 4 + call % 4) as u64, v);
                 }
             }
         });
